@@ -1,26 +1,53 @@
 """C14 - Machine instructions encode as the target's instruction set defines.
 
-Specification: spec/IsaCommon.tla (generic form/field/piece arithmetic: Encode, Verdict, the declarative
-decoder Extract/Matches, table sanity) + one table module per ISA written from the manufacturer's
-instruction-set definition (NOT from /repo/code*.c) + spec/IsaGen.tla (case generator).
+Specification (all verdict-relevant knowledge is TLA+):
+  spec/IsaCommon.tla  form / field / piece arithmetic (div-mod only): Encode, Verdict, the declarative decoder
+                      Extract / Matches, table sanity (FormWellFormed, AmbiguousOpcodes, FormsDistinct, DefinedOpcodes)
+  spec/Isa4004 Isa8080 Isa6502 IsaPic16 IsaAvr IsaZ80 IsaMsp430 (+ Isa6800)
+                      one finite table per ISA written from the manufacturer's instruction-set definition
+                      (NOT from /repo/code*.c): [mnemonic, argument templates, operand fields (width, signedness,
+                      scaling, PC-relative base / in-page rule), opcode pattern with bit pieces, length]
+  spec/IsaGen.tla     case generator: Init picks a form (and the statement address for PC-dependent operands), each
+                      step fixes the next operand to one member of its class set; a leaf = one assembler statement
+  spec/Isa_Trace.tla  (V) explains recorded statements of golden programs with the tables
 
-(M) For every CPU variant TLC checks on the complete case graph (every form x operand classes):
-    UnitsTyped, DecodeInverts (the declarative decoder recovers every operand, PC-relative ones as the
-    referenced target address), OutOfRangeIsError, and once per table: TableSane (pieces cover every field
-    bit exactly once and never overlap opcode bits, no two non-alias forms share a first unit, aliases have
-    a primary) and the manufacturer's count of defined opcodes.
-(G) Every leaf of that graph is one assembler statement printed by TLC with its expected units or expected
-    rejection.  All accepted-expected statements of one CPU go into one source (`org` before statements
-    with PC-dependent operands); `emit` hook events (line, bytes) and the flattened code-file records are
-    compared with TLC's units.  Rejected-expected statements are assembled one per run: an error must be
-    reported and nothing may be emitted for the statement.  Convention-zone operands (negative spelling of
-    an unsigned field) may be rejected, but if accepted the two's complement must be emitted.
-(V) Golden corpus programs of the covered ISAs are assembled with stmt+emit events; TLC (Isa*_Trace)
-    decodes the emitted units of every machine statement with the table and checks that a form of the
-    source mnemonic matches them (code -> spec direction).
+(M) per CPU variant TLC explores the complete case graph and checks at every leaf UnitsTyped, DecodeInverts (the
+    declarative decoder recovers every operand, PC-relative ones as the referenced target address) and
+    OutOfRangeIsError; once per table: pieces cover every field bit exactly once and never overlap opcode bits, no two
+    non-alias forms can yield the same opcode, and the manufacturer's opcode counts (4004 239 / 4040 253, 8080 244 /
+    8085 246, 6502 151 / 65SC02 178 / 65C02 210 / W65C02S 212, 6800 197, Z80 pages 252 / 248 CB / 56 ED, PIC16 word count).
+(G) every leaf is printed by TLC as statement pieces + expected units or expected rejection.  Expected-accepted
+    statements: sources of 1000 statements after `cpu <name>` (`org` before statements with PC-dependent operands);
+    the `emit` hook events (line, bytes) AND the flattened code-file records are compared with TLC's units.
+    Expected-rejected / convention-zone statements: screened in chunks of 40 per run (diag/emit events are per line);
+    every statement that does not show exactly the expected picture - and, without hooks, every statement - is
+    assembled alone and judged there: an error must be reported and NOTHING may be emitted for the statement;
+    convention-zone operands (negative spelling of an unsigned field, address beyond the device) may be rejected, but if
+    accepted the two's complement must be emitted.
+(V) machine statements of 15 golden programs (stmt + emit events, CPU tracked through the CPU statements) are validated
+    by TLC against the tables (a mnemonic of the table must be explained by one of its forms).  A rejection is
+    reported as SPEC-DRIFT (table gap or defect), the verdict stays with (G).
 
-See the ISA list `ISAS` for what is covered; an ISA of the property statement that is not in the list is NOT
-covered (reported in the evidence as such), never passed.
+ISAs covered: see ISAS.  quick: K = 3, one seed-derived salt, 6502 + W65C02S, ATMEGA128, MSP430 sample subset
+(MOV / ADD.B / CMP[.B] + format II + jumps + emulated); thorough: K = 8, 4 salts, all CPU variants, all 12 MSP430
+format-I operations.  The evidence names the ISAs of the run; nothing outside the list is "passed".
+
+NOT covered / not judged: number spellings other than decimal; register aliases beyond the tables; undocumented
+opcodes and assembler conveniences (NMOS 6502 JMP ($xxFF) guard, MSP430 0(Rn)->@Rn and constant-generator choice for
+65535 / 255, PIC omitted destination, OPTION/TRIS, BANKSEL, AVR CBR, automatic PCLATH fix-up); MSP430 full
+source x destination cross product (every mode x register appears against a register operand, two-extension-word
+combinations only for MOV and CMP.B); MSP430X, other AVR devices, Z80 undocumented, Z180/Z380.
+
+Findings on the pinned tree (known_findings/C14.json, fix diffs in proposed_fixes/):
+  4004 ISZ at words 254/255 of a page checked against page of pc+1 (legal target rejected, unreachable one encoded);
+  65SC02 / W65C02S JMP ($xxFF) rejected; 6800 JMP/JSR and MSP430 (every format) emit a truncated instruction next to
+  the range error.
+
+Mutations of the real code tried (scratch copy with the proposed fixes, `VERIF_REPO=... ./check C14`), all of them
+compile and pass the 201 ctest tests, all were reported as VIOLATION:
+  code4004.c DecodeImm4 UInt4 -> UInt8 (BBL/LDM 16 accepted);  code65.c branch limit 127 -> 128;
+  code16c8x.c bit number UInt3 -> UInt4;  code4004.c JCN page rule pc+2 -> pc+1;  code85.c LXI Int16 -> Int32.
+Binding of (V): truncating the recorded units of a JMP or flipping opcode bit 0 of an MVI event makes Isa_Trace reject.
 """
 import os
 
@@ -34,14 +61,18 @@ ISAS = [
     isa.IsaCfg("4004/4040", "Isa4004_Gen", [("4004", "4004"), ("4040", "4040")]),
     isa.IsaCfg("8080/8085", "Isa8080_Gen", [("8080", "8080"), ("8085", "8085")]),
     isa.IsaCfg("6502/65C02", "Isa6502_Gen", [("6502", "6502"), ("65SC02", "65SC02"), ("65C02", "65C02"),
-                                             ("W65C02S", "W65C02S")]),
+                                             ("W65C02S", "W65C02S")], quick=["6502", "W65C02S"]),
     isa.IsaCfg("PIC16C8x", "IsaPic16_Gen", [("16C84", "16C84")], unit_bytes=2),
-    isa.IsaCfg("AVR", "IsaAvr_Gen", [("AT90S8515", "AT90S8515"), ("ATMEGA128", "ATMEGA128")], unit_bytes=2),
+    isa.IsaCfg("AVR", "IsaAvr_Gen", [("AT90S8515", "AT90S8515"), ("ATMEGA128", "ATMEGA128")], unit_bytes=2,
+               quick=["ATMEGA128"]),
     isa.IsaCfg("Z80", "IsaZ80_Gen", [("Z80", "Z80")]),
+    # "MSP430:sample" = MOV / ADD.B / CMP[.B] + format II + jumps + emulated (see IsaMsp430.tla)
+    isa.IsaCfg("MSP430", "IsaMsp430_Gen", [("MSP430:sample", "MSP430"), ("MSP430", "MSP430")], unit_bytes=2, addr_step=2,
+               quick=["MSP430:sample"], thorough=["MSP430"]),
     # beyond the property's list: the 6800 table exists because C15 needs it, so it is checked the same way
     isa.IsaCfg("6800", "Isa6800_Gen", [("6800", "6800")]),
 ]
-NOT_COVERED = ["MSP430"]
+NOT_COVERED = []
 
 
 GROUPS = {}
@@ -123,6 +154,15 @@ def _fine(case, em, errs, rc):
     return (not em and bool(errs)) or (not errs and em == case["units"])
 
 
+def _many(bld, jobs):
+    """assemble_many; if another run has meanwhile evicted the shared build cache, rebuild once and retry"""
+    try:
+        return aslrun.assemble_many(bld, jobs)
+    except FileNotFoundError:
+        build.get(bld.flavour)
+        return aslrun.assemble_many(bld, jobs)
+
+
 CHUNK = 40
 ACC_CHUNK = 1000     # accepted-expected statements per source (small enough for the smallest program memory)
 
@@ -145,7 +185,7 @@ def replay_cpu(rep, bld, cfg, cpu, aslcpu, cases):
         for g in groups:
             src, where = isa.batch_source(cfg, aslcpu, g)
             jobs.append({"sources": {"a.asm": src}, "opts": ["-q"], "events": "emit,diag", "timeout": 120})
-        results = aslrun.assemble_many(bld, jobs)
+        results = _many(bld, jobs)
         for gi, (g, j, res) in enumerate(zip(groups, jobs, results)):
             src, where = isa.batch_source(cfg, aslcpu, g)
             if res.timeout or res.sig is not None or res.trace is None:
@@ -181,7 +221,7 @@ def replay_cpu(rep, bld, cfg, cpu, aslcpu, cases):
     for c in singles:
         src, ln = isa.single_source(cfg, aslcpu, c)
         jobs.append(({"sources": {"a.asm": src}, "opts": ["-q"], "events": "emit,diag" if bld.hooks else None}, ln))
-    results = aslrun.assemble_many(bld, [j for (j, ln) in jobs])
+    results = _many(bld, [j for (j, ln) in jobs])
     for c, (j, ln), res in zip(singles, jobs, results):
         e1, r1 = _observe(bld, cfg, res, ln)
         judge(rep, cfg, cpu, c, j["sources"]["a.asm"], ln, res.rc, e1, r1, sig=res.sig, timeout=res.timeout,
@@ -190,13 +230,62 @@ def replay_cpu(rep, bld, cfg, cpu, aslcpu, cases):
     return len(acc), len(oth), len(singles)
 
 
+CPU2ISA = {"4004": ("4004", 1), "4040": ("4004", 1), "8080": ("8080", 1), "8085": ("8080", 1), "6502": ("6502", 1),
+           "65SC02": ("6502", 1), "65C02": ("6502", 1), "W65C02S": ("6502", 1), "16C84": ("PIC16", 2),
+           "AT90S8515": ("AVR", 2), "ATMEGA128": ("AVR", 2), "Z80": ("Z80", 1), "MSP430": ("MSP430", 2), "6800": ("6800", 1)}
+TRACE_TESTS = ["t_4004", "t_85", "t_65", "t_w65c02s", "t_tmpsym", "t_16c84", "t_avr", "t_msp", "t_msp430x",
+               "t_charset", "t_defined", "t_dup", "t_enum", "t_macovr", "t_shift"]
+
+
+def corpus_events(bld):
+    """(V) machine statements of golden programs under a covered CPU -> Isa_Trace events, one execution per test"""
+    import re
+    import shutil
+    execs, names = [], []
+    for t in aslrun.corpus():
+        if t[0] not in TRACE_TESTS:
+            continue
+        res = aslrun.assemble_corpus(bld, t, events="stmt,emit")
+        shutil.rmtree(res.dir, ignore_errors=True)
+        if not res.trace:
+            continue
+        src = open(t[2], encoding="latin-1").read().splitlines()
+        lp = isa.last_pass(res.trace)
+        cur, pend, first = None, b"", None
+        ev = []
+        for e in res.trace:
+            if e.get("pass") != lp:
+                continue
+            if e["e"] == "emit":
+                if first is None:
+                    first = e["addr"]
+                pend += bytes.fromhex(e["bytes"])
+            elif e["e"] == "stmt":
+                op = e["op"].upper()
+                if op == "CPU":
+                    m = re.match(r"^\s*(?:\S+:?\s+)?cpu\s+([^\s;]+)", src[e["line"] - 1], re.I) if 0 < e["line"] <= len(src) else None
+                    cur = m.group(1).upper() if m else None
+                elif pend and cur in CPU2ISA and e["seg"] == 1 and not e["rec"]:
+                    iname, ub = CPU2ISA[cur]
+                    if len(pend) % ub == 0:
+                        units = [int.from_bytes(pend[i:i + ub], "little") for i in range(0, len(pend), ub)]
+                        ev.append({"a": "STMT", "isa": iname, "cpu": "MSP430:all" if cur == "MSP430" else cur, "op": op, "units": units, "pc": first,
+                                   "line": e["line"]})
+                pend, first = b"", None
+        if ev:
+            execs.append(ev)
+            names.append(t[0])
+    return execs, names
+
+
 def main(tier):
     rep = Report(PID, tier)
     bld = build.get("hook")
     k = 3 if tier == "quick" else 8
     salts = [seed() % 1000] if tier == "quick" else [(seed() + 37 * i) % 1000 for i in range(4)]
     covered = []
-    todo = [(cfg, cpu, aslcpu, si, salt) for cfg in ISAS for (cpu, aslcpu) in cfg.cpus for si, salt in enumerate(salts)]
+    todo = [(cfg, cpu, aslcpu, si, salt) for cfg in ISAS for (cpu, aslcpu) in cfg.cpus_for(tier)
+            for si, salt in enumerate(salts)]
     with Phase("TLC: %d generator runs" % len(todo)):
         gens = pmap(lambda t: isa.gen_cases(t[0], t[1], k, t[4]), todo, workers=min(4, NCPU))
     for (cfg, cpu, aslcpu, si, salt), (r, cases) in zip(todo, gens):
@@ -213,6 +302,21 @@ def main(tier):
                                 "expected": c["exp"], "units": c["units"]})
         if cfg.name not in covered:
             covered.append(cfg.name)
+    # (V) golden corpus statements explained by the tables ---------------------------------------------------
+    if bld.hooks:
+        from vlib import tracecheck
+        with Phase("corpus statements vs tables"):
+            execs, names = corpus_events(bld)
+            v = tracecheck.validate("Isa_Trace", execs, cfg="Isa_Trace.cfg", timeout=900)
+        rep.part("Isa_Trace(corpus)", tests=names, statements=sum(len(x) for x in execs), accepted=v.accepted,
+                 distinct_states=v.states, wall_s=v.wall)
+        rep.cov["states"] += v.states
+        rep.cov["transitions"] += v.generated
+        rep.traces(v.executions)
+        if not v.accepted:
+            # the table does not explain a statement of a golden program: table gap or encoding defect - the
+            # property-level verdict stays with the generated cases, this is reported as drift
+            rep.drift("golden test %s: %s" % (names[v.fail_exec], v.detail))
     for g in sorted(GROUPS):
         log("[C14] mismatch group isa=%s cpu=%s form=%s kind=%s pc=%s: %d statements" % (g + (GROUPS[g],)))
     rep.part("coverage", isas_covered=covered, isas_not_covered=NOT_COVERED)
